@@ -9,6 +9,7 @@ Decided:
              data, and in the byte front-end the MD5 is fed after conversion to little-endian
   C08.trunc  the interleaved front-ends cut the final partial PCM frame with `len - len % pcm_frame_size`, guarded
              by `len >= pcm_frame_size`; the block size used for chunking is frame size x block_size
+  C08.create the path front-ends truncate a file they are allowed to overwrite (no tail of an older file survives)
   C08.md5    MD5 input is the little-endian, byte-width-truncated sample: width k bytes <-> i{8k} converter
 Not decided: byte identity of the output across chunkings (value-level).
 """
@@ -171,6 +172,14 @@ def protocol(ctx, rep, P):
                           len(ex) == 1 and (ex[0][0] is not b or (not mk or mk[0][0] is not b or b.dominates(ex[0][1], mk[0][1]))), loc_of(b))
     rep.floor(P + ".sib", "front-end functions with an encode call", nenc, 6)
 
+    # ---- C08.create: overwriting an existing file starts from an empty file -----------------------------------------
+    cb_ = anchor(F, rep, P + ".create", "encode::Options::create")
+    if cb_ is not None:
+        names = [callee_name(t) for c in [cb_] + F.closures_of(cb_) for _, t in c.calls()]
+        trunc = any(re.search(r"std::fs::File::create$", n) for n in names) or \
+            any(re.search(r"OpenOptions::truncate$", callee_name(t)) and op_int(t["a"][1]) == 1 for c in [cb_] + F.closures_of(cb_) for _, t in c.calls())
+        rep.check(P + ".create", "Options::create truncates the file it is allowed to overwrite (File::create / truncate(true))", trunc, loc_of(cb_), "",
+                  "the path front-ends open an existing file for overwriting without truncating it: the tail of a longer old file stays behind the new stream, so the finished file depends on what was at the path before")
     # ---- C08.trunc ------------------------------------------------------------------------------------------
     for name in ("byte", "sample"):
         fb = _get(F, rep, P + ".trunc", FRONTS[name]["fin"])
